@@ -118,8 +118,7 @@ def run(ck, facts, tier, only=None):
         return Arr([Poly.atom("n")] * 2, Sym("M0"), "M0")
     hk2 = dict(hk, **{FX + "create_initial_edges": cap_edges, FX + "create_initial_fx_array": cap_init,
                       FX + "mut_arrays_remaining_elements": lambda ev, vals, e: Sym("ctor", "Ok", Sym("bool", "true")),
-                      "dual_ops::convert::set_order_clone": lambda ev, vals, e: Sym("lifted", *[vkey(v) for v in vals]),
-                      "fmt::format": lambda ev, vals, e: Sym("fmtstr", vkey(vals[0]))})
+                      "dual_ops::convert::set_order_clone": lambda ev, vals, e: Sym("lifted", *[vkey(v) for v in vals])})
     for order, conv in (("Zero", "f64"), ("One", "dual::dual::Dual"), ("Two", "dual::dual::Dual2")):
         try:
             captured.clear()
@@ -131,8 +130,9 @@ def run(ck, facts, tier, only=None):
                 # el = From::from(lifted(rate_i, ad, [name_i]))  — conversion to the container's element type
                 txt = repr(vkey(el))
                 q = at(RATES)
+                name_i = cel.concat_sym([vkey(Sym("lit", "fx_")), vkey(Sym("display", vkey(fld(q, "pair"))))])        # "fx_" followed by the pair's text
                 ok = repr(vkey(fld(q, "rate"))) in txt and "'lifted'" in txt and repr(vkey(Sym("ctor", order))) in txt and \
-                    "'fmtstr'" in txt and repr(vkey(fld(q, "pair"))) in txt and vkey(rates.seq.src) == vkey(RATES)
+                    repr(vkey(name_i)) in txt and vkey(rates.seq.src) == vkey(RATES)
                 # both the name and the rate come from element i0 only
                 ok = ok and "'i1'" not in txt and "'q0'" not in txt
                 pe, pi = captured.get("pairs_edges"), captured.get("pairs_init")
